@@ -20,4 +20,44 @@ TEXTS = {
     },
 }
 
+TEXTS["C02"] = {
+    "engine": "seqx", "design_ref": "DESIGN.md §4 C02",
+    "technique": "bounded-exhaustive enumeration of builder/writer programs executed on the real serialisers and "
+                 "parsers (explicit product space, field-by-field comparison with the spec on every case)",
+    "level_text": "Every request of a bounded RequestBuilder product is serialised by the shipped writeRequest and "
+                  "delivered through the shipped transport + Http::Handler; every response of the ResponseWriter / "
+                  "ResponseStream product is parsed by the shipped ResponseParser (one-shot and byte by byte). All "
+                  "cases of the stated finite space are executed, none sampled.",
+    "level_note": NOTE_A,
+}
+TEXTS["C03"] = {
+    "engine": "seqx", "design_ref": "DESIGN.md §4 C03",
+    "technique": "bounded-exhaustive input enumeration (parser modes x all strings over an alphabet up to length L, "
+                 "two-point mutations, numeric boundary values, header-value grammars) on the real parsers with "
+                 "sanitizers, allocation watcher and watchdog as oracles",
+    "level_text": "All inputs of the stated finite spaces are executed against the real request/response parsers in "
+                  "three delivery modes; any sanitizer report, hang, or allocation beyond 4*maxRequestSize+64KiB is a "
+                  "violation. Exhaustive within alphabet and length bounds, which is where the end-of-buffer and "
+                  "overflow defects of this class live.",
+    "level_note": NOTE_A + "; server-level 'other connections keep being answered' is covered by C07/C08 harnesses",
+}
+TEXTS["C04"] = {
+    "engine": "seqx", "design_ref": "DESIGN.md §4 C04",
+    "technique": "explicit enumeration of all message sequences up to depth K on one connection, executed on the real "
+                 "handler/transport (server) and Connection (client), differential oracle against a fresh connection",
+    "level_text": "All sequences of length <= K over 33 request events and 24 response events run on one real "
+                  "connection; each message's observation must equal the fresh-connection observation and the parser "
+                  "must be back in the fresh state. Exhaustive to depth K.",
+    "level_note": NOTE_A,
+}
+TEXTS["C05"] = {
+    "engine": "seqx", "design_ref": "DESIGN.md §4 C05",
+    "technique": "bounded-exhaustive enumeration of writer/stream programs on the real code, every emitted byte string "
+                 "judged by an independent RFC 7230 reference reader",
+    "level_text": "Every body length of the range (covering the 512/1024/2048 buffer doublings), every status code, "
+                  "header/cookie set, limit setting around the exact size and every stream program up to Kops is "
+                  "executed; the reference reader must accept exactly one message with the intended framing.",
+    "level_note": NOTE_A + "; the reference reader (harness/common/rfc7230.h) is part of the trusted base",
+}
+
 NOT_APPLICABLE = {}
